@@ -1,0 +1,224 @@
+//go:build verif
+
+// Machine-checked contracts for this package (comment-only; compiled only with -tags verif,
+// and even then contributes no code).  Read by /verif/govc; see /verif/DESIGN.md.
+
+package deltatracker
+
+//@ -- ---------------------------------------------------------------- C18: desired-versus-dataplane tracking
+//@ -- Proved once for all key and value types (the type parameters are uninterpreted sorts).  The user-supplied
+//@ -- comparison is assumed pure and deterministic; where symmetry/reflexivity is needed it is a stated premise.
+//@ ghost purefunc (*DeltaTracker).valuesEqual
+
+//@ -- the three maps exist and are three different maps
+//@ spec macro dtMapsOK(t *DeltaTracker) bool = t != nil && t.inDataplaneAndDesired != nil && t.inDataplaneNotDesired != nil && t.desiredUpdates != nil
+//@      && t.inDataplaneAndDesired != t.inDataplaneNotDesired && t.inDataplaneAndDesired != t.desiredUpdates && t.inDataplaneNotDesired != t.desiredUpdates
+//@ -- the comparison is symmetric and reflexive
+//@ spec macro dtEqOK(t *DeltaTracker) bool = forall a V, b V :: t.valuesEqual(a, b) == t.valuesEqual(b, a) && t.valuesEqual(a, a)
+
+//@ -- abstract views
+//@ spec macro dtDesiredHas(t *DeltaTracker, k K) bool = (k in t.desiredUpdates) || (k in t.inDataplaneAndDesired)
+//@ spec macro dtDesiredVal(t *DeltaTracker, k K) V = (k in t.desiredUpdates) ? t.desiredUpdates[k] : t.inDataplaneAndDesired[k]
+//@ spec macro dtDPHas(t *DeltaTracker, k K) bool = (k in t.inDataplaneAndDesired) || (k in t.inDataplaneNotDesired)
+//@ spec macro dtDPVal(t *DeltaTracker, k K) V = (k in t.inDataplaneAndDesired) ? t.inDataplaneAndDesired[k] : t.inDataplaneNotDesired[k]
+
+//@ -- representation invariant: the two in-dataplane tables are disjoint; a pending update is never for a key
+//@ -- whose dataplane value is not desired, and differs from the dataplane value where there is one.
+//@ -- Consequence (by definition unfolding): the pending updates are exactly the keys whose desired value is
+//@ -- missing from or different in the dataplane, and the pending deletions exactly the dataplane keys that
+//@ -- are not desired.
+//@ spec macro dtInv(t *DeltaTracker) bool = forall k K :: !((k in t.inDataplaneAndDesired) && (k in t.inDataplaneNotDesired))
+//@      && ((k in t.desiredUpdates) ==> !(k in t.inDataplaneNotDesired))
+//@      && ((k in t.desiredUpdates) && (k in t.inDataplaneAndDesired) ==> !t.valuesEqual(t.desiredUpdates[k], t.inDataplaneAndDesired[k]))
+
+//@ func (*DesiredView).Get
+//@   property C18
+//@   requires dtMapsOK(c)
+//@   ensures res1 == dtDesiredHas(c, k)
+//@   ensures res1 ==> res0 == dtDesiredVal(c, k)
+//@   assigns nothing
+
+//@ func (*DataplaneView).Get
+//@   property C18
+//@   requires dtMapsOK(c)
+//@   ensures res1 == dtDPHas(c, k)
+//@   ensures res1 ==> res0 == dtDPVal(c, k)
+//@   assigns nothing
+
+//@ func (*PendingUpdatesView).Get
+//@   property C18
+//@   requires dtMapsOK(c) && dtInv(c) && dtEqOK(c)
+//@   ensures res1 == (dtDesiredHas(c, k) && (!dtDPHas(c, k) || !c.valuesEqual(dtDesiredVal(c, k), dtDPVal(c, k))))
+//@   ensures res1 ==> res0 == dtDesiredVal(c, k)
+//@   assigns nothing
+
+//@ func (*PendingDeletionsView).Get
+//@   property C18
+//@   requires dtMapsOK(c) && dtInv(c)
+//@   ensures res1 == (dtDPHas(c, k) && !dtDesiredHas(c, k))
+//@   ensures res1 ==> res0 == dtDPVal(c, k)
+//@   assigns nothing
+
+//@ func (*DesiredView).Len
+//@   property C18
+//@   requires c != nil
+//@   ensures res == c.desiredLen
+//@   assigns nothing
+
+//@ -- ------------------------------------------------------------------ the four mutators, over the WHOLE views
+//@ -- Desired.Set(k, v): k becomes desired with a value equal (under the comparison) to v - v itself, or the
+//@ -- dataplane's value when that already equals v; every other key, and the whole dataplane view, unchanged.
+//@ func (*DesiredView).Set
+//@   property C18
+//@   option safety off
+//@   requires dtMapsOK(c) && dtInv(c) && dtEqOK(c)
+//@   ensures dtMapsOK(c) && dtInv(c)
+//@   ensures forall j K :: dtDesiredHas(c, j) == (j == k || old(dtDesiredHas(c, j)))
+//@   ensures forall j K :: j != k && dtDesiredHas(c, j) ==> dtDesiredVal(c, j) == old(dtDesiredVal(c, j))
+//@   ensures dtDesiredVal(c, k) == v || (old(dtDPHas(c, k)) && dtDesiredVal(c, k) == old(dtDPVal(c, k)) && c.valuesEqual(old(dtDPVal(c, k)), v))
+//@   ensures forall j K :: dtDPHas(c, j) == old(dtDPHas(c, j)) && (dtDPHas(c, j) ==> dtDPVal(c, j) == old(dtDPVal(c, j)))
+//@   ensures c.desiredLen == old(c.desiredLen) + (old(dtDesiredHas(c, k)) ? 0 : 1)
+
+//@ -- Desired.Delete(k): k stops being desired; every other key, and the whole dataplane view, unchanged.
+//@ func (*DesiredView).Delete
+//@   property C18
+//@   option safety off
+//@   requires dtMapsOK(c) && dtInv(c)
+//@   ensures dtMapsOK(c) && dtInv(c)
+//@   ensures forall j K :: dtDesiredHas(c, j) == (j != k && old(dtDesiredHas(c, j)))
+//@   ensures forall j K :: dtDesiredHas(c, j) ==> dtDesiredVal(c, j) == old(dtDesiredVal(c, j))
+//@   ensures forall j K :: dtDPHas(c, j) == old(dtDPHas(c, j)) && (dtDPHas(c, j) ==> dtDPVal(c, j) == old(dtDPVal(c, j)))
+//@   ensures c.desiredLen == old(c.desiredLen) - (old(dtDesiredHas(c, k)) ? 1 : 0)
+
+//@ -- Dataplane.Set(k, v): the dataplane now holds v for k; the desired view keeps its keys and values (for k: a
+//@ -- value equal to the old one under the comparison); everything else unchanged.
+//@ func (*DataplaneView).Set
+//@   property C18
+//@   option safety off
+//@   requires dtMapsOK(c) && dtInv(c) && dtEqOK(c)
+//@   ensures dtMapsOK(c) && dtInv(c)
+//@   ensures forall j K :: dtDPHas(c, j) == (j == k || old(dtDPHas(c, j)))
+//@   ensures dtDPVal(c, k) == v
+//@   ensures forall j K :: j != k && dtDPHas(c, j) ==> dtDPVal(c, j) == old(dtDPVal(c, j))
+//@   ensures forall j K :: dtDesiredHas(c, j) == old(dtDesiredHas(c, j))
+//@   ensures forall j K :: j != k && dtDesiredHas(c, j) ==> dtDesiredVal(c, j) == old(dtDesiredVal(c, j))
+//@   ensures dtDesiredHas(c, k) ==> dtDesiredVal(c, k) == old(dtDesiredVal(c, k)) || (dtDesiredVal(c, k) == v && c.valuesEqual(old(dtDesiredVal(c, k)), v))
+
+//@ -- Dataplane.Delete(k): k leaves the dataplane view; the desired view is unchanged exactly.
+//@ func (*DataplaneView).Delete
+//@   property C18
+//@   option safety off
+//@   requires dtMapsOK(c) && dtInv(c)
+//@   ensures dtMapsOK(c) && dtInv(c)
+//@   ensures forall j K :: dtDPHas(c, j) == (j != k && old(dtDPHas(c, j)))
+//@   ensures forall j K :: dtDPHas(c, j) ==> dtDPVal(c, j) == old(dtDPVal(c, j))
+//@   ensures forall j K :: dtDesiredHas(c, j) == old(dtDesiredHas(c, j)) && (dtDesiredHas(c, j) ==> dtDesiredVal(c, j) == old(dtDesiredVal(c, j)))
+
+//@ -- the views are the tracker itself under another method set
+//@ func (*DataplaneView).asDesiredView
+//@   property C18
+//@   ensures res == c
+//@   assigns nothing
+//@ func (*DeltaTracker).PendingUpdates
+//@   property C18
+//@   ensures res == c
+//@   assigns nothing
+//@ func (*DeltaTracker).PendingDeletions
+//@   property C18
+//@   ensures res == c
+//@   assigns nothing
+//@ func (*DeltaTracker).Desired
+//@   property C18
+//@   ensures res == c
+//@   assigns nothing
+//@ func (*DeltaTracker).Dataplane
+//@   property C18
+//@   ensures res == c
+//@   assigns nothing
+//@ func (*PendingUpdatesView).Len
+//@   property C18
+//@   requires dtMapsOK(c)
+//@   ensures res == len(c.desiredUpdates) && (res == 0) == (forall k K :: !(k in c.desiredUpdates))
+//@   assigns nothing
+//@ func (*PendingDeletionsView).Len
+//@   property C18
+//@   requires dtMapsOK(c)
+//@   ensures res == len(c.inDataplaneNotDesired) && (res == 0) == (forall k K :: !(k in c.inDataplaneNotDesired))
+//@   assigns nothing
+//@ -- InSync: nothing is pending exactly when the two views agree - same keys, equal values
+//@ func (*DeltaTracker).InSync
+//@   property C18
+//@   requires dtMapsOK(c) && dtInv(c) && dtEqOK(c)
+//@   ensures res == (forall k K :: dtDesiredHas(c, k) == dtDPHas(c, k) && (dtDesiredHas(c, k) ==> c.valuesEqual(dtDesiredVal(c, k), dtDPVal(c, k))))
+//@   assigns nothing
+//@ func (*DataplaneView).Len
+//@   property C18
+//@   requires dtMapsOK(c)
+//@   ensures res == len(c.inDataplaneNotDesired) + len(c.inDataplaneAndDesired)
+//@   assigns nothing
+
+//@ -- ------------------------------------------------------------------ iteration (callbacks assumed not to touch
+//@ -- the tracker: option readonly-callbacks; the one internal exception, DeleteAll, is not covered)
+//@ ghost dtReported set[K]
+//@ ghost dtApplied set[K]
+
+//@ -- Desired.Iter reports exactly the desired keys, each with its desired value
+//@ func (*DesiredView).Iter
+//@   property C18
+//@   option safety off
+//@   option readonly-callbacks
+//@   requires dtMapsOK(c) && dtReported == emptyset(K)
+//@   ghost at call callback f: check dtDesiredHas(c, arg0) && arg1 == dtDesiredVal(c, arg0) ; dtReported = store(dtReported, arg0, true)
+//@   ensures forall k K :: dtReported[k] == dtDesiredHas(c, k)
+//@   loop 1 invariant forall k K :: dtReported[k] == (visited[k] && (k in c.desiredUpdates))
+//@   loop 2 invariant forall k K :: dtReported[k] == ((k in c.desiredUpdates) || (visited[k] && (k in c.inDataplaneAndDesired)))
+
+//@ -- Dataplane.Iter reports exactly the dataplane keys, each with its dataplane value
+//@ func (*DataplaneView).Iter
+//@   property C18
+//@   option safety off
+//@   option readonly-callbacks
+//@   requires dtMapsOK(c) && dtInv(c) && dtReported == emptyset(K)
+//@   ghost at call callback f: check dtDPHas(c, arg0) && arg1 == dtDPVal(c, arg0) ; dtReported = store(dtReported, arg0, true)
+//@   ensures forall k K :: dtReported[k] == dtDPHas(c, k)
+//@   loop 1 invariant forall k K :: dtReported[k] == (visited[k] && (k in c.inDataplaneAndDesired))
+//@   loop 2 invariant forall k K :: dtReported[k] == ((k in c.inDataplaneAndDesired) || (visited[k] && (k in c.inDataplaneNotDesired)))
+
+//@ -- PendingUpdates.Iter hands out only genuine pending updates (key with its desired value); for each one the
+//@ -- callback reports as applied, the dataplane view now holds the desired value - "as if the function had
+//@ -- called Dataplane().Set(k, v)" - and nothing else changes: the desired view is untouched.
+//@ func (*PendingUpdatesView).Iter
+//@   property C18
+//@   option safety off
+//@   option readonly-callbacks
+//@   requires dtMapsOK(c) && dtInv(c) && dtEqOK(c) && dtApplied == emptyset(K)
+//@   ghost at call callback f: check (arg0 in c.desiredUpdates) && arg1 == c.desiredUpdates[arg0] ; dtApplied = store(dtApplied, arg0, res == IterActionUpdateDataplane)
+//@   ensures dtMapsOK(c) && dtInv(c)
+//@   ensures forall j K :: dtDesiredHas(c, j) == old(dtDesiredHas(c, j)) && (dtDesiredHas(c, j) ==> dtDesiredVal(c, j) == old(dtDesiredVal(c, j)))
+//@   ensures forall j K :: dtDPHas(c, j) == (old(dtDPHas(c, j)) || dtApplied[j])
+//@   ensures forall j K :: dtApplied[j] ==> dtDPVal(c, j) == old(dtDesiredVal(c, j))
+//@   ensures forall j K :: !dtApplied[j] && dtDPHas(c, j) ==> dtDPVal(c, j) == old(dtDPVal(c, j))
+//@   loop 1 invariant dtMapsOK(c) && dtInv(c) && c.desiredUpdates == old(c.desiredUpdates) && c.inDataplaneAndDesired == old(c.inDataplaneAndDesired) && c.inDataplaneNotDesired == old(c.inDataplaneNotDesired) && c.valuesEqual == old(c.valuesEqual)
+//@   loop 1 invariant forall j K :: dtApplied[j] ==> visited[j]
+//@   loop 1 invariant forall j K :: dtDesiredHas(c, j) == old(dtDesiredHas(c, j)) && (dtDesiredHas(c, j) ==> dtDesiredVal(c, j) == old(dtDesiredVal(c, j)))
+//@   loop 1 invariant forall j K :: dtDPHas(c, j) == (old(dtDPHas(c, j)) || dtApplied[j])
+//@   loop 1 invariant forall j K :: dtApplied[j] ==> dtDPVal(c, j) == old(dtDesiredVal(c, j))
+//@   loop 1 invariant forall j K :: !dtApplied[j] && dtDPHas(c, j) ==> dtDPVal(c, j) == old(dtDPVal(c, j))
+
+//@ -- PendingDeletions.Iter hands out only genuine pending deletions; each one reported as applied leaves the
+//@ -- dataplane view; the desired view is untouched.
+//@ func (*PendingDeletionsView).Iter
+//@   property C18
+//@   option safety off
+//@   option readonly-callbacks
+//@   requires dtMapsOK(c) && dtInv(c) && dtApplied == emptyset(K)
+//@   ghost at call callback f: check (arg0 in c.inDataplaneNotDesired) ; dtApplied = store(dtApplied, arg0, res == IterActionUpdateDataplane)
+//@   ensures dtMapsOK(c) && dtInv(c)
+//@   ensures forall j K :: dtDesiredHas(c, j) == old(dtDesiredHas(c, j)) && (dtDesiredHas(c, j) ==> dtDesiredVal(c, j) == old(dtDesiredVal(c, j)))
+//@   ensures forall j K :: dtDPHas(c, j) == (old(dtDPHas(c, j)) && !dtApplied[j])
+//@   ensures forall j K :: dtDPHas(c, j) ==> dtDPVal(c, j) == old(dtDPVal(c, j))
+//@   loop 1 invariant dtMapsOK(c) && dtInv(c) && c.desiredUpdates == old(c.desiredUpdates) && c.inDataplaneAndDesired == old(c.inDataplaneAndDesired) && c.inDataplaneNotDesired == old(c.inDataplaneNotDesired) && c.valuesEqual == old(c.valuesEqual)
+//@   loop 1 invariant forall j K :: dtApplied[j] ==> visited[j]
+//@   loop 1 invariant forall j K :: dtDesiredHas(c, j) == old(dtDesiredHas(c, j)) && (dtDesiredHas(c, j) ==> dtDesiredVal(c, j) == old(dtDesiredVal(c, j)))
+//@   loop 1 invariant forall j K :: dtDPHas(c, j) == (old(dtDPHas(c, j)) && !dtApplied[j])
+//@   loop 1 invariant forall j K :: dtDPHas(c, j) ==> dtDPVal(c, j) == old(dtDPVal(c, j))
